@@ -78,7 +78,8 @@ def gen_logical_tree(rng: Any) -> dict[str, Any]:
     def make(path: str, alias: str, depth: int, kind: str, alias_shape: str | None = None) -> None:
         shape = alias_shape or rng.choice(["none", "prepare", "start", "both", "both"])
         node = {"alias": alias, "kind": kind, "shape": shape, "hard_kwargs": gen_kwargs(rng) if kind == "hard" and path else {},
-                "children": [], "ext": None, "alias_derived": alias_shape is not None, "starts_plugin": rng.random() < 0.25}
+                "children": [], "ext": None, "alias_derived": alias_shape is not None, "starts_plugin": rng.random() < 0.25,
+                "type_from_ext": kind == "hard" and bool(path) and rng.random() < 0.2}
         if path:
             r = rng.random()
             if kind == "config_only":
@@ -158,6 +159,10 @@ class Harness:
                     # module-level DEFAULTS constants in an application: starting must not modify them
                     if h.naming_of(c) == "alias":  # no type given: derived from the alias
                         self.add_component(nodes[c]["alias"], **nodes[c]["hard_kwargs"])
+                    elif nodes[c].get("type_from_ext"):
+                        # the container hard-codes the child's options only; *which* component it is comes from the external
+                        # configuration (the alias alone names no component type)
+                        self.add_component(nodes[c]["alias"], **nodes[c]["hard_kwargs"], **h.extra(c))
                     else:
                         self.add_component(nodes[c]["alias"], h.type_arg(c), **nodes[c]["hard_kwargs"], **h.extra(c))
 
@@ -238,6 +243,8 @@ class Harness:
                     out[n["alias"]] = entry
                 else:
                     entry = {} if n["ext"] is None else copy.deepcopy(n["ext"])
+                    if n.get("type_from_ext") and self.naming_of(c) != "alias":
+                        entry["type"] = self.type_arg(c)
                     if sub:
                         entry["components"] = sub
                     if entry or n["ext"] is not None:
